@@ -106,6 +106,10 @@ def run_workers(jobs, timeout):
         env = dict(ENV)
         env["SIM_JOB"] = jp
         env["SIM_STUCK_DIR"] = os.path.join(VERIF, "stuck")
+        if "SIM_RUN_WALL" not in os.environ and job.get("mode") == "explore":
+            # exploration: one pathological run must not hold a worker for long
+            # (aborted runs keep their findings); replays run to the end
+            env["SIM_RUN_WALL"] = "150s" if job.get("thorough") else "45s"
         if "gomaxprocs" in job:
             env["GOMAXPROCS"] = str(job["gomaxprocs"])
         else:
